@@ -365,7 +365,10 @@ theorem xsd_unknown_component (d : ClassDiagram) (name : String)
 /-- `build_schema` declares the global data types and then those contained in the component THAT ARE NOT GLOBAL
     (`is_contained_in(s_dt, c_c) and not is_global(s_dt)`, so that a data type is never declared twice).  In the model - which
     has no package references - a contained data type is never global, so the second condition filters nothing and `xsdSpec`
-    is the list the code produces; no data type row is declared by both loops. -/
+    is the list the code produces; no data type row is declared by both loops.
+    COROLLARY about the model only: the defect this condition repairs (commit 6208c4e: a data type of a global package that a
+    package of the component refers to via EP_PKGREF was declared twice) needs a package reference, which the model cannot
+    express; it is decided by D alone (harness family `pkgref`, PKGREF_TO_GLOBAL). -/
 theorem xsd_type_loops_disjoint (d : ClassDiagram) (comp : Nat) :
     d.dts.filter (fun t => containedIn d.containers comp t.parent && !isGlobal d.containers t.parent) =
       d.dts.filter (fun t => containedIn d.containers comp t.parent) ∧
